@@ -2,7 +2,7 @@
 exec (so that the metaclass, annotation handling and frame inspection run as for a user),
 emission as Gallina `classdef` terms, reification of instances.
 
-Class AST: {"name", "base": None|name, "immutable": bool, "fields": [{"name","field","immutable","default"}],
+Class AST: {"name", "base": None|name, "immutable": bool, "fields": [{"name","field","immutable","default","factory" (optional key: default is a callable)}],
             "required": None|[names], "spell_optional": bool (optional: write _optional instead of _required),
             "additional": None|bool, "ignore_none": bool, "hook": None|["le",a,b]|["set",a],
             "undefined": bool (optional: _enable_undefined_value)}
@@ -37,7 +37,11 @@ def class_src(c):
         extra = []
         if fd.get("immutable"):
             extra.append("immutable=True")
-        if fd.get("default") is not None:
+        if fd.get("factory") is not None:
+            # a default FACTORY: `_fact(key)` (provided by the context's namespace) is a callable returning whatever
+            # the harness has put under that key; fd["default"] is the value it returns when the class is defined
+            extra.append("default=_fact(%r)" % fd["factory"])
+        elif fd.get("default") is not None:
             extra.append("default=%s" % G.py_src(fd["default"]))
         if extra:
             if fd["field"]["t"] == "ref":
